@@ -48,6 +48,25 @@ Theorem C07_line_roundtrip : forall K dec_str dec_parse time_str time_parse dt_s
 Proof. exact line_roundtrip. Qed.
 Print Assumptions C07_line_roundtrip.
 
+(* the same with the premise about the tree discharged from the value: no binary float inside, every string and
+   key a sequence of valid code points (text_ok), printable codec outputs and reserved key names *)
+Theorem C07_line_roundtrip_values : forall K dec_str dec_parse time_str time_parse dt_str dt_parse date_str date_parse dur_str dur_parse,
+  (forall m e, dec_parse (dec_str m e) = Some (m, e)) ->
+  (forall h mi sc, time_parse (time_str h mi sc) = Some (h, mi, sc)) ->
+  (forall y mo d h mi sc, dt_parse (dt_str y mo d h mi sc) = Some (y, mo, d, h, mi, sc)) ->
+  (forall y mo d, date_parse (date_str y mo d) = Some (y, mo, d)) ->
+  (forall d sc us, dur_parse (dur_str d sc us) = Some (d, sc, us)) ->
+  str_nodup [k_dec K; k_time K; k_dt K; k_date K; k_dur K; k_set K] = true ->
+  Forall char_ok (k_dec K) /\ Forall char_ok (k_time K) /\ Forall char_ok (k_dt K) /\ Forall char_ok (k_date K) /\ Forall char_ok (k_dur K) ->
+  (forall m e, Forall char_ok (dec_str m e)) -> (forall h mi sc, Forall char_ok (time_str h mi sc)) ->
+  (forall y mo d h mi sc, Forall char_ok (dt_str y mo d h mi sc)) -> (forall y mo d, Forall char_ok (date_str y mo d)) ->
+  (forall d sc us, Forall char_ok (dur_str d sc us)) ->
+  forall v, ejson_ok K v = true -> text_ok v ->
+  read_line K dec_parse time_parse dt_parse date_parse dur_parse
+    (write_line K dec_str time_str dt_str date_str dur_str v) = Some v.
+Proof. exact line_roundtrip_values. Qed.
+Print Assumptions C07_line_roundtrip_values.
+
 (* the stream file format round-trips: every resource and every row, in order, empty resources included *)
 Theorem C07_stream_roundtrip : forall (D R : Type) (encD : D -> line) decD (encR : R -> line) decR nres,
   (forall d, decD (encD d) = Some d) -> (forall r, decR (encR r) = Some r) ->
